@@ -64,7 +64,7 @@ fn file_with_start(start: &[u8]) -> Vec<u8> {
 
 pub fn run() {
 	let cx = ctx();
-	cx.note("rule", json!("name tag (16 bytes), display name (31), connect code (10) of a 3.16 Game Start, for an occupied and an unoccupied port: ALL 256 single bytes and ALL 65,536 two-byte sequences at the field start (followed by NUL) and straddling the field end (second byte belongs to the neighbouring field); a valid prefix with NUL at EVERY position followed by garbage {0x01, 0x80, 0xFF, a valid lead byte, a full invalid run}; fields without NUL; longer texts from units of different expansion (ASCII, half-width katakana 0xB1/0xDF, two-byte kana, full-width space): ALL sequences of up to 4 units and every run of an expanding unit at every offset and every length that fits the field. Oracle: field == strict Shift-JIS decode (no replacement) of the bytes before the first NUL inside the field; invalid => read is Err (for an unoccupied port Err or ignored); no U+FFFD ever. Normalisation: ALL 1,112,064 Unicode scalar values as one-character strings and all pairs from a 64-character edge set: U+FF01..U+FF5E -> c-0xFEE0, U+3000 -> ' ', U+2019 -> ', U+201D -> \", everything else unchanged, idempotent. Every case non-trivial; distinct by construction"));
+	cx.note("rule", json!("name tag (16 bytes), display name (31), connect code (10) of a Game Start (the byte sweeps on the 3.16 layout; the NUL / garbage / text cases on the 1.3, 3.9, 3.11, 3.14 and 3.16 layouts), for an occupied and an unoccupied port: ALL 256 single bytes and ALL 65,536 two-byte sequences at the field start (followed by NUL) and straddling the field end (second byte belongs to the neighbouring field); a valid prefix with NUL at EVERY position followed by garbage {0x01, 0x80, 0xFF, a valid lead byte, a full invalid run}; fields without NUL; longer texts from units of different expansion (ASCII, half-width katakana 0xB1/0xDF, two-byte kana, full-width space): ALL sequences of up to 4 units and every run of an expanding unit at every offset and every length that fits the field. Oracle: field == strict Shift-JIS decode (no replacement) of the bytes before the first NUL inside the field; invalid => read is Err (for an unoccupied port Err or ignored); no U+FFFD ever. Normalisation: ALL 1,112,064 Unicode scalar values as one-character strings and all pairs from a 64-character edge set: U+FF01..U+FF5E -> c-0xFEE0, U+3000 -> ' ', U+2019 -> ', U+201D -> \", everything else unchanged, idempotent. Every case non-trivial; distinct by construction"));
 	cx.note("exhaustive", json!(true));
 	cx.note("assumptions", json!(["encoding_rs's Shift-JIS table is the reference for what a valid sequence decodes to (trusted base); the check is about slicing at the NUL and strictness"]));
 	let ports = vec![PortCfg { port: 0, ics: false, ptype: 0 }, PortCfg { port: 1, ics: false, ptype: 1 }, PortCfg { port: 3, ics: false, ptype: 2 }];
@@ -121,70 +121,81 @@ pub fn run() {
 	});
 	// NUL at every position, garbage after it
 	let mut jobs = vec![];
-	let prefix: Vec<u8> = vec![0x83, 0x65, b'a', 0x81, 0x94, b'1', 0xB1, b'z', 0x82, 0xA0, b'Q', 0x83, 0x58, b'9', 0xC0, b'k', 0x88, 0x9F, b'm', 0x81, 0x40, b'n', 0x82, 0x4F, b'o', 0x81, 0x49, b'p', 0x81, 0x97, b'q'];
-	for (fi, (foff, flen)) in fields.iter().enumerate() {
-		for port in [0usize, 2] {
-			let fo = foff + port * flen;
-			for nul in 0..=*flen {
-				for (gi, garbage) in [vec![0x01u8], vec![0x80], vec![0xFF], vec![0x83], vec![0x83, 0xFF, 0x80, 0xA0, 0xFD]].iter().enumerate() {
+	// the NUL / garbage / text cases for every Game Start layout that has the field: the blocks of 1.3 (name tag
+	// only), 3.9 (netplay name and code, no UID yet), 3.11, 3.14 and 3.16
+	for ver in [(1u8, 3u8, 0u8), (3, 9, 0), (3, 11, 0), (3, 14, 0), (3, 16, 0)] {
+		let base = Arc::new(game_start_block(ver, &ports, false, Fill::A));
+		let prefix: Vec<u8> = vec![0x83, 0x65, b'a', 0x81, 0x94, b'1', 0xB1, b'z', 0x82, 0xA0, b'Q', 0x83, 0x58, b'9', 0xC0, b'k', 0x88, 0x9F, b'm', 0x81, 0x40, b'n', 0x82, 0x4F, b'o', 0x81, 0x49, b'p', 0x81, 0x97, b'q'];
+		for (fi, (foff, flen)) in fields.iter().enumerate() {
+			if foff + 4 * flen > base.len() {
+				continue; // this layout does not have the field yet
+			}
+			for port in [0usize, 2] {
+				let fo = foff + port * flen;
+				for nul in 0..=*flen {
+					for (gi, garbage) in [vec![0x01u8], vec![0x80], vec![0xFF], vec![0x83], vec![0x83, 0xFF, 0x80, 0xA0, 0xFD]].iter().enumerate() {
+						let mut blk = (*base).clone();
+						for k in 0..*flen {
+							blk[fo + k] = if k < nul { prefix[k % prefix.len()] } else if k == nul { 0 } else { garbage[(k - nul - 1) % garbage.len()] };
+						}
+						jobs.push((blk, format!("v{}.{} field {} port {} NUL at {} garbage #{}", ver.0, ver.1, fi, port, nul, gi), ["name-tag", "display-name", "connect-code"][fi]));
+					}
+				}
+			}
+		}
+		// longer texts: units of different expansion (1 byte -> 1 or 3 UTF-8 bytes, 2 bytes -> 3): ALL sequences of up
+		// to 4 units, and every run of an expanding unit at every offset and of every length that fits the field
+		// (after filler units of each kind), NUL-terminated when there is room
+		let units: Vec<Vec<u8>> = vec![vec![0x41], vec![0xB1], vec![0xDF], vec![0x82, 0xA0], vec![0x81, 0x40]];
+		for (fi, (foff, flen)) in fields.iter().enumerate() {
+			if foff + 4 * flen > base.len() {
+				continue;
+			}
+			let class = ["name-tag", "display-name", "connect-code"][fi];
+			let mut texts: Vec<Vec<u8>> = vec![];
+			let mut level: Vec<Vec<u8>> = vec![vec![]];
+			for _ in 0..4 {
+				let mut next = vec![];
+				for t in &level {
+					for u in &units {
+						let mut x = t.clone();
+						x.extend_from_slice(u);
+						if x.len() <= *flen {
+							next.push(x);
+						}
+					}
+				}
+				texts.extend(next.iter().cloned());
+				level = next;
+			}
+			for f in &units {
+				for x in &units[1..4] {
+					for o in 0..=*flen {
+						for k in 1..=*flen {
+							if o * f.len() + k * x.len() > *flen {
+								break;
+							}
+							let mut t = vec![];
+							for _ in 0..o {
+								t.extend_from_slice(f);
+							}
+							for _ in 0..k {
+								t.extend_from_slice(x);
+							}
+							texts.push(t);
+						}
+					}
+				}
+			}
+			for port in [0usize, 3] {
+				let fo = foff + port * flen;
+				for t in &texts {
 					let mut blk = (*base).clone();
 					for k in 0..*flen {
-						blk[fo + k] = if k < nul { prefix[k % prefix.len()] } else if k == nul { 0 } else { garbage[(k - nul - 1) % garbage.len()] };
+						blk[fo + k] = if k < t.len() { t[k] } else { 0 };
 					}
-					jobs.push((blk, format!("field {} port {} NUL at {} garbage #{}", fi, port, nul, gi), ["name-tag", "display-name", "connect-code"][fi]));
+					jobs.push((blk, format!("v{}.{} field {} port {} text {:02x?}", ver.0, ver.1, fi, port, t), class));
 				}
-			}
-		}
-	}
-	// longer texts: units of different expansion (1 byte -> 1 or 3 UTF-8 bytes, 2 bytes -> 3): ALL sequences of up
-	// to 4 units, and every run of an expanding unit at every offset and of every length that fits the field
-	// (after filler units of each kind), NUL-terminated when there is room
-	let units: Vec<Vec<u8>> = vec![vec![0x41], vec![0xB1], vec![0xDF], vec![0x82, 0xA0], vec![0x81, 0x40]];
-	for (fi, (foff, flen)) in fields.iter().enumerate() {
-		let class = ["name-tag", "display-name", "connect-code"][fi];
-		let mut texts: Vec<Vec<u8>> = vec![];
-		let mut level: Vec<Vec<u8>> = vec![vec![]];
-		for _ in 0..4 {
-			let mut next = vec![];
-			for t in &level {
-				for u in &units {
-					let mut x = t.clone();
-					x.extend_from_slice(u);
-					if x.len() <= *flen {
-						next.push(x);
-					}
-				}
-			}
-			texts.extend(next.iter().cloned());
-			level = next;
-		}
-		for f in &units {
-			for x in &units[1..4] {
-				for o in 0..=*flen {
-					for k in 1..=*flen {
-						if o * f.len() + k * x.len() > *flen {
-							break;
-						}
-						let mut t = vec![];
-						for _ in 0..o {
-							t.extend_from_slice(f);
-						}
-						for _ in 0..k {
-							t.extend_from_slice(x);
-						}
-						texts.push(t);
-					}
-				}
-			}
-		}
-		for port in [0usize, 3] {
-			let fo = foff + port * flen;
-			for t in &texts {
-				let mut blk = (*base).clone();
-				for k in 0..*flen {
-					blk[fo + k] = if k < t.len() { t[k] } else { 0 };
-				}
-				jobs.push((blk, format!("field {} port {} text {:02x?}", fi, port, t), class));
 			}
 		}
 	}
